@@ -107,6 +107,8 @@ def bind_roles(program, func, call, bound_args):
     for idx, arg in enumerate(bound_args):
         name = txt(arg)
         vals = defs.get(name, [])
+        if isinstance(arg, ast.Call):
+            vals = [arg]        # the collection is computed in the call
         if len(vals) == 1 and isinstance(vals[0], ast.Call) and \
                 call_name(vals[0]) == 'dependencies' and \
                 len(vals[0].args) == 1:
